@@ -56,6 +56,41 @@ def gstuffingVec (ctx : Ctx) (pieces : List (List Byte)) : Option (List Byte) :=
   let out := gstuffingV ctx pieces
   if out.length ≤ vecBufSize (pieces.map List.length).sum then some out else none
 
+/-! ### the same encoder at the level of its buffer writes
+
+`*outdata++ = b` is a store at an explicit index of an explicit buffer; a store at
+an index ≥ the buffer size is a fault (`none`).  This is what "never write outside
+the buffer" is stated about (`encoder_buffer_writes` in Props). -/
+
+/-- `*outdata++ = b` : state = (buffer, index of `outdata` in it) -/
+def emit (st : Option (List Byte × Nat)) (b : Byte) : Option (List Byte × Nat) :=
+  match st with
+  | none => none
+  | some (out, pos) => if pos < out.length then some (out.set pos b, pos + 1) else none
+
+/-- `gstuff_byte(c, outdata, ctx)` through the pointer -/
+def stuffByteW (ctx : Ctx) (st : Option (List Byte × Nat)) (c : Byte) : Option (List Byte × Nat) :=
+  if c = ctx.start then emit (emit st ctx.stub) ctx.stubStart
+  else if c = ctx.stub then emit (emit st ctx.stub) ctx.stubStub
+  else if c = ctx.stop then emit (emit st ctx.stub) ctx.stubStop
+  else emit st c
+
+/-- `gstuffing_v(vec, n, outdata, ctx)` writing into the buffer `out`: (buffer, return value) -/
+def gstuffingVW (ctx : Ctx) (pieces : List (List Byte)) (out : List Byte) : Option (List Byte × Nat) :=
+  let st := pieces.foldl
+    (fun st piece => piece.foldl
+      (fun (st : BitVec 8 × Option (List Byte × Nat)) c => (strmStep st.1 c, stuffByteW ctx st.2 c)) st)
+    (0xFF#8, emit (some (out, 0)) ctx.start)
+  emit (stuffByteW ctx st.2 st.1) ctx.stop
+
+/-- the self-sizing overloads: `ret.resize(sz * 2 + 4); sz2 = gstuffing_v(vec, n, &ret[0], ctx);
+ret.resize(sz2); return ret;` -/
+def gstuffingVecW (ctx : Ctx) (pieces : List (List Byte)) : Option (List Byte) :=
+  let sz := (pieces.map List.length).sum
+  match gstuffingVW ctx pieces (List.replicate (vecBufSize sz) 0) with
+  | none => none
+  | some (out, sz2) => some (out.take sz2)
+
 /-! ### legacy encoder gstuffing_v1 (fixed alphabet AC/AD/AE/AF, start = stop) -/
 
 def legStart : Byte := 0xAC
@@ -153,7 +188,10 @@ def feed (ctx : Ctx) : Recv → List Byte → Recv × List Int
 
 /-! ### legacy receiver gstuff_autorecv_newchar_v1 -/
 
-inductive LSt | l0 | l1 | l2
+/-- `autom->state`: 0 = a marker was the last event (reset, then as 1), 1 = in frame,
+2 = after the escape byte, 3 = hunt for the marker (after `setbuf`, DATA_ERROR, OVERFLOW;
+added by `fix: legacy receiver hunts for the start marker`) -/
+inductive LSt | l0 | l1 | l2 | l3
 deriving DecidableEq, Repr
 
 structure LRecv where
@@ -163,18 +201,24 @@ structure LRecv where
   cap : Nat
 deriving DecidableEq, Repr
 
-def LRecv.init (cap : Nat) : LRecv := ⟨.l0, 0xFF, [], cap⟩
+/-- `gstuff_autorecv_setbuf_v1`: sline_init, reset, `state = 3` -/
+def LRecv.init (cap : Nat) : LRecv := ⟨.l3, 0xFF, [], cap⟩
 def LDATA_ERROR : Int := -3
 
+/-- label `__putchar__` of the legacy receiver: a refused byte ends the frame, `goto __hunt__` -/
 def lputchar (r : LRecv) (c : Byte) : LRecv × Int :=
   if ¬ (r.cap - 1 ≤ r.line.length) then
     ({ r with line := r.line ++ [c], crc := strmStep r.crc c, state := .l1 }, CONTINUE)
-  else ({ r with state := .l0 }, OVERFLOW)
+  else ({ r with state := .l3 }, OVERFLOW)
 
 def lnewchar (r0 : LRecv) (c : Byte) : LRecv × Int :=
-  let r := if r0.state = .l0 then { r0 with crc := 0xFF, line := [], state := .l1 } else r0
+  -- case 3: everything in front of the next marker is skipped; the marker falls through to case 0
+  if r0.state = .l3 ∧ c ≠ legStart then (r0, CONTINUE) else
+  -- case 0: reset, state = 1, fall through to case 1
+  let r := if r0.state = .l0 ∨ r0.state = .l3 then { r0 with crc := 0xFF, line := [], state := .l1 } else r0
   match r.state with
   | .l0 => (r, -4)
+  | .l3 => (r, -4)
   | .l1 =>
     if c = legStart then
       if r.line.isEmpty then (r, CONTINUE)
@@ -185,7 +229,19 @@ def lnewchar (r0 : LRecv) (c : Byte) : LRecv × Int :=
   | .l2 =>
     if c = legStubStart then lputchar r legStart
     else if c = legStubStub then lputchar r legStub
-    else ({ r with state := .l0 }, LDATA_ERROR)
+    else if c = legStart then ({ r with state := .l0 }, LDATA_ERROR)  -- the marker itself opens the next frame
+    else ({ r with state := .l3 }, LDATA_ERROR)                        -- goto __hunt__
+
+/-- how the user of the legacy receiver reads a packet at NEWPACKAGE — there is no
+accessor, the struct is read directly: `sline_getline(&autom->line)` gives the bytes,
+`sline_size(&autom->line)` their number.  The legacy receiver does NOT strip the CRC-8
+(the configurable one does `sline_backspace(&line, 1)`), so what the API hands over is
+payload ++ [crc], `size = n + 1`. -/
+def LRecv.getline (r : LRecv) : List Byte := r.line
+def LRecv.size (r : LRecv) : Nat := r.line.length
+/-- the packet under the convention every user of the legacy receiver has to follow:
+the first `size - 1` bytes -/
+def LRecv.packet (r : LRecv) : List Byte := r.getline.take (r.size - 1)
 
 def lfeed : LRecv → List Byte → LRecv × List Int
   | r, [] => (r, [])
